@@ -64,17 +64,20 @@ ASSUMPTIONS = [
 ]
 UNPROVED = (
     "PARTIAL. (a),(c1) are proved on parsed components (normParts of ANY re-parse of canonComps(p) = normParts p, whatever "
-    "default protocol canonicalisation assumed) for quoted=False and paths that are empty or absolute (every URL with an authority), under PunyLaws "
-    "(PathHyp — three normpath facts — is discharged from Lemmas/Normpath.lean); platform_aware and the redirect "
+    "default protocol canonicalisation assumed) in both modes — quoted=True for QuotedClean inputs, the exclusion of the "
+    "KF-C02-1 family, which really fails (witness in Props/C03.lean, KF-C03-4) — for paths that are empty or absolute "
+    "(every URL with an authority), under PunyLaws (PathHyp — three normpath facts — is discharged from "
+    "Lemmas/Normpath.lean); platform_aware and the redirect "
     "step act on the string before parsing and are outside the theorems. (b) is proved (SortHyp — the query sort "
     "depends only on the multiset of items — is discharged by C04's sortQsl_eq_of_perm) for the class LowerInput (the URL as parsed, and "
     "what its escapes decode to, are lower-case), where fingerprint_url's inner call is normalize_url's result with the "
     "query passed through the gl/hl filter; the full statement is REFUTED on the model (not_fullFingerprintOfNormalizeEq: "
     "'/Index.html' vs '/Index.html/index.html', replayed on the implementation as KF-C03-3). (c2) = (c1)+(b) under the "
     "union of the hypotheses. NOT proved, explored by the oracle on every run: (b),(c2) on URLs with capital letters "
-    "(that normalize_url's steps other than the index test commute with lower-casing), quoted=True (fails on the "
-    "KF-C02-1 family: KF-C03-4), platform_aware=True (D53: KF-C03-2), URLs with a redirect hint (D29: KF-C03-1), the "
-    "string-level bridging (cleaning + CPython parse/print: evaluated per case by c03_bridge / c03_lower), equality of "
+    "(that normalize_url's steps other than the index test commute with lower-casing), "
+    "platform_aware=True (D53: KF-C03-2), URLs with a redirect hint (D29: KF-C03-1), the "
+    "string-level bridging (cleaning + CPython parse/print: evaluated per case by c03_bridge / c03_lower; it fails for an "
+    "unknown scheme with an empty authority, KF-C03-5), equality of "
     "the printed strings vs equality of the components."
 )
 
@@ -587,9 +590,9 @@ def _pairs(case):
             continue
         p, pr = _norm_parse(u, False)
         p_re, pr_re = _norm_parse(c, False)
-        if not q and p is not None and p_re is not None and pr["resolved"] == u and pr_re["resolved"] == c:
+        if p is not None and p_re is not None and pr["resolved"] == u and pr_re["resolved"] == c:
             out.append((
-                {"f": "c03_bridge", "parsed0": p0, "parsed": p, "reparsed": p_re, "puny": nc.puny_table(p0["hostname"])},
+                {"f": "c03_bridge", "parsed0": p0, "parsed": p, "reparsed": p_re, "puny": nc.puny_table(p0["hostname"]), "quoted": q},
                 [_same_up_to_scheme(p, p0), _reparses_real(u, p_re, q)],
             ))
         if nc.in_model_alphabet(u) and p is not None and pr["resolved"] == u:
